@@ -1150,7 +1150,9 @@ void Handler::helpArgument( const string& help_arg_key, bool full)
    {
       mOutput << "Argument '" << key << "', usage:" << std::endl;
 
-      auto const  desc = mDescription.getArgDesc( key);
+      // the argument may have been found through an abbreviation of its long
+      // key: use the complete key of the argument to get its description
+      auto const  desc = mDescription.getArgDesc( p_arg_hdl->key());
       format::TextBlock  tb( 3, 80, true);
       tb.format(  mOutput, desc);
 
